@@ -366,6 +366,21 @@ def run_tail_frames(ck):
                   "literal %s dynamic %s" % (lits, dyn))
 
 
+def run_canned_bodies(ck):
+    """generated obligation: the literal bodies of the label service are the model's bodies of no item (Example canned_label_bodies)"""
+    import vcheck
+    src = open(os.path.join(vcheck.REPO, "reader/service/queryLabelsService.go")).read()
+    whole = [l for l in re.findall(r'res <- (`[^`]*`|"(?:[^"\\]|\\.)*")', src)]
+    def unq(l):
+        return l[1:-1] if l.startswith("`") else json.loads(l)
+    lits = sorted(set(unq(l) for l in whole))
+    want = sorted(['{"status": "success","data": [', ",", "]}", '{"status": "success","data": []}',
+                   '{"status":"success", "data":[]}', '{"status":"success", "data":[', "]}"])
+    ck.extra["label_service_literals"] = lits
+    ck.obligation("label service: the literal chunks it sends are the model's (envelopes of enc_labels / enc_series, the comma, and the two canned empty bodies)",
+                  lits == sorted(set(want)), "found %s" % lits)
+
+
 def run(ck):
     ck.trusted += [
         "C15: jsoniter's Stream API is modelled by render (tokens -> bytes) and checked byte-exactly by the correspondence; encoding/json's string escaper, "
@@ -378,5 +393,6 @@ def run(ck):
     ]
     ck.coq_props()
     run_tail_frames(ck)
+    run_canned_bodies(ck)
     run_pool_order(ck)
     run_encoders(ck)
